@@ -15,6 +15,7 @@ import (
 	"sync"
 	"sync/atomic"
 	"testing"
+	"time"
 
 	"github.com/fsnotify/fsnotify"
 	"gocloud.dev/blob"
@@ -483,6 +484,8 @@ func TestHTTPEndpointProviderConverges(t *testing.T) {
 				return vkit.Reply{Status: 500}
 			case "neterr":
 				return vkit.Reply{Reset: true}
+			case "timeout":
+				return vkit.Reply{Hang: true}
 			default:
 				return vkit.Reply{Status: 200, Header: map[string]string{"Content-Type": "application/yaml"}, Body: []byte(ruleSetYAML(s, kind))}
 			}
@@ -503,9 +506,9 @@ func TestHTTPEndpointProviderConverges(t *testing.T) {
 
 		for i := 0; i < steps; i++ {
 			s := rapid.IntRange(0, nsrc-1).Draw(t, "src")
-			kind := rapid.SampledFrom([]string{"v1", "v2", "v3", "v1", "v2", "empty", "syntax", "semantic", "http404", "http500", "neterr"}).Draw(t, "outcome")
+			kind := rapid.SampledFrom([]string{"v1", "v2", "v3", "v1", "v2", "empty", "syntax", "semantic", "http404", "http500", "neterr", "neterr", "timeout"}).Draw(t, "outcome")
 
-			if exclNet && kind == "neterr" {
+			if exclNet && (kind == "neterr" || kind == "timeout") {
 				vkit.S.Exclude(kfHTTPNetErr)
 
 				continue
@@ -516,10 +519,19 @@ func TestHTTPEndpointProviderConverges(t *testing.T) {
 			nt = nt || kind != "v1" && kind != "v2" && kind != "v3" || polls > 1
 
 			for k := 0; k < polls; k++ {
-				want := m.observe(s, kind)
+				obs := kind
+				if kind == "timeout" {
+					obs = "neterr" // no answer in time: a communication failure as well
+				}
+
+				want := m.observe(s, obs)
 				history = append(history, fmt.Sprintf("poll src%d -> %s", s, kind))
 
-				_ = prov.Poll(nil, fetchers[s])
+				if kind == "timeout" {
+					_ = prov.PollWithin(nil, fetchers[s], 60*time.Millisecond)
+				} else {
+					_ = prov.Poll(nil, fetchers[s])
+				}
 
 				checkStep(t, w, rec, m, nsrc, want, history)
 			}
